@@ -250,6 +250,7 @@ def main():
     texts += F.consuming_singles(ops + ["SMOD", "SAR", "BYTE", "SIGNEXTEND"])
     texts += F.f_rule_chains(ops, depth=3)
     texts += F.f_mem((2,), deltas=[0, 32])
+    texts += F.f_every_static_opcode()
     texts += F.f_exh(2 if tier == "quick" else 3)
     if tier == "thorough":
         both = sorted(set(pairs) | {(b, a) for a, b in pairs})
